@@ -65,6 +65,14 @@ CertWhy(e) ==
        THEN "cert-no-refutation"
   ELSE ""
 
+(* mechanism conformance (CDCL.tla: the line emitted at Backjump IS the learned clause): every    *)
+(* non-empty certificate line is, as a set of literals, one of the clauses the hook reported as   *)
+(* learned during this call.  Diagnostic only.                                                    *)
+LearnedSets(e) == {Range(e.wb[i].lits) : i \in {j \in 1..Len(e.wb) : e.wb[j].k = "learn"}}
+CertMechWhy(e) ==
+  IF e.certOn /\ Len(e.wb) > 0 /\ \E i \in 1..Len(e.cert) : e.cert[i] # <<>> /\ Range(e.cert[i]) \notin LearnedSets(e)
+  THEN "diag:cert-line-not-a-learned-clause" ELSE ""
+
 SolveWhy(e) ==
   IF e.status \notin {"SAT", "UNSAT"} THEN "indet"
   ELSE IF (e.status = "SAT") # (UnderAsm # {}) THEN "verdict"
@@ -230,7 +238,7 @@ First(a, b2) == IF a # "" THEN a ELSE b2
 KFNegObj == Case.hasObj /\ \E i \in 1..Len(Case.obj.w) : Case.obj.w[i] < 0
 TagNeg(w) == IF w # "" /\ KFNegObj THEN "kf:negative-cost-coefficient:" \o w ELSE w
 
-Why == CASE Ev.op = "solve"    -> First(SolveWhy(Ev), WbWhy(Ev))
+Why == CASE Ev.op = "solve"    -> First(First(SolveWhy(Ev), WbWhy(Ev)), CertMechWhy(Ev))
          [] Ev.op = "append"   -> ""
          [] Ev.op = "assume"   -> AssumeWhy(Ev)
          [] Ev.op = "count"    -> First(CountWhy(Ev), WbWhy(Ev))
